@@ -244,6 +244,17 @@ func (b *builder) make(s *Sch) core.ZodSchema {
 		if s.Part {
 			o = reflect.ValueOf(o).MethodByName("Partial").Call(nil)[0].Interface()
 		}
+		for _, op := range s.Ops {
+			name := "Partial"
+			if op.Req {
+				name = "Required"
+			}
+			var args []reflect.Value
+			if len(op.Keys) > 0 {
+				args = []reflect.Value{reflect.ValueOf(append([]string{}, op.Keys...))}
+			}
+			o = reflect.ValueOf(o).MethodByName(name).Call(args)[0].Interface()
+		}
 		return asSchema(applyCks(o, s.Cks, false))
 	case "slice":
 		return asSchema(applyCks(gozod.Slice[any](build(s.Elem)), s.Cks, false))
